@@ -2,17 +2,16 @@
 """Writes /verif/known_findings.d/c18.json (run by hand after calibration, never at check time).
 
 A signature produced by the driver is
-    [two-shard-window|][file-memtable-seam|][nan-inf-in-window|][range<step|]<kind>|<mode>|<head>|<shape>
-(data-shape flags, kind of difference, instant|range|range-vs-instant, construct of the
+    [two-shard-window| or file-memtable-seam| or range<step| or nan-inf-in-window|]<kind>|<mode>|<head>|<shape>
+(at most one data-shape prefix, the first that applies; kind of difference, instant|range|range-vs-instant, construct of the
 minimal disagreeing expression, its abstract shape). vf matches exactly or, with a trailing
 '*', by prefix; the first matching entry names the finding, so the construct families come
 before the data-shape families.
 """
-import itertools
 import json
 
-FLAGS = ["two-shard-window|", "file-memtable-seam|", "nan-inf-in-window|", "range<step|"]
-COMBOS = ["".join(f for f, on in zip(FLAGS, bits) if on) for bits in itertools.product([0, 1], repeat=4)]
+FLAGS = ["two-shard-window|", "file-memtable-seam|", "range<step|", "nan-inf-in-window|"]
+COMBOS = [""] + FLAGS
 AGGS = ["sum", "avg", "min", "max", "count", "group", "stddev", "stdvar", "quantile"]
 SAME = "error:populatepromseries raise err: vector cannot contain metrics with the same labels"
 NOANS = "error:harness: no answer within Ns (or the server died answering); server killed and r"
@@ -49,7 +48,7 @@ add("C18-aggregation-over-offset-selector-range-query",
     "range query of an aggregation directly over an instant selector with offset, e.g. sum(mem_used offset 5m) with step 60s over 20 min: steps are missing, or one timestamp is returned several times with partial sums; the instant queries at the same steps are right",
     "lib/util/lifted/promql2influxql/aggregate_expr.go + transpiler.go (QueryOffset with GROUP BY time) / engine/executor/prom_instant_vector_transform.go",
     every(["point-missing", "duplicate-point", "point-extra", "value:number"], ("range", "range-vs-instant"),
-          ["aggregation %s of selector offset<" % a for a in AGGS]))
+          ["aggregation over offset-selector: "]))
 add("C18-quantile-over-subexpression-empty",
     "quantile aggregation whose operand is a binary operation or another aggregation: quantile by (job) (0.5, mem_used + 1), quantile(0.5, sum without (instance) (mem_used)) and quantile by (job) (0.5, sum(mem_used)) return nothing (instant and range), or the range query and its instant queries return different series",
     "lib/util/lifted/promql2influxql/aggregate_expr.go (quantile over a sub-query) / engine/executor prom aggregate",
@@ -63,10 +62,9 @@ add("C18-vector-matching-on-ignoring",
     'vector-vector operations with on()/ignoring(): in a range query req_total{code="500"} + on(instance, job) req_total{code="200"} keeps producing points for a pair after one side has ended or gone stale (the instant queries at those steps return nothing) and drops other pairs; an aggregation over such an operation (sum by (job) (rate(a[5m]) < on(instance, job) b)) returns nothing or other values even as instant query',
     "engine/executor/prom_binop_transform.go (matching of series across the steps of a range query; as sub-query of an aggregation)",
     every(["point-extra", "point-missing", "series-missing", "series-extra", "value:number"], ("range", "range-vs-instant"),
-          ["binary on ", "binary ignoring "]) +
+          ["vector-matching "]) +
     every(["series-missing", "series-extra", "value:number", "point-missing", "point-extra"], ALLMODES,
-          ["aggregation %s of paren %s %s" % (a, c, m) for a in AGGS for c in ("arithmetic", "comparison", "bool-comparison")
-           for m in ("on", "ignoring")]))
+          ["aggregation over vector-matching: "]))
 add("C18-binary-of-two-aggregations",
     "binary operation between two aggregations, e.g. avg by (instance) (resets(req_total[5m])) <= bool avg by (instance) (avg_over_time(mem_used[5m] offset 90s)): empty result as instant query; in range queries extra or missing points and series",
     "lib/util/lifted/promql2influxql/binary_expr.go (binary operation over two aggregate sub-queries, offset on one side)",
@@ -77,12 +75,8 @@ GARBAGE = ["point-missing", "point-extra", "series-missing", "duplicate-point", 
            "value:inf", SAME, NOANS, BIG]
 
 
-def flagged(flag, kinds, skip=()):
-    sigs = []
-    for c in COMBOS:
-        if flag in c and not any(s in c for s in skip):
-            sigs += [c + k + "|*" for k in kinds]
-    return sigs
+def flagged(flag, kinds):
+    return [flag + k + "|*" for k in kinds]
 
 
 add("C18-window-across-shard-groups",
@@ -92,16 +86,16 @@ add("C18-window-across-shard-groups",
 add("C18-window-across-file-memtable-seam",
     "after a flush between two remote-write requests (older samples of a series in a file, newer ones in the memtable) the range-query step whose window covers the flush point loses its sample: temp_c with step 60s misses the last step before the seam, sum_over_time(mem_used[10m]) misses a point",
     "engine/prom_instant_vector_cursor.go, engine/prom_range_vector_cursor.go (one series read from a file and from the memtable)",
-    flagged("file-memtable-seam|", GARBAGE, skip=("two-shard-window|",)))
+    flagged("file-memtable-seam|", GARBAGE))
 add("C18-range-function-range-below-step",
     "range query of a range-vector function whose range is shorter than the step (avg_over_time(mem_used[17s]) step 100s; sum_over_time(req_total[45s]) step 360s): error 'vector cannot contain metrics with the same labelset', wrong values, a response of more than 64 MiB, or no answer at all while the server allocates GiB per 10 s",
     "engine/prom_range_vector_cursor.go (window selection when the windows do not tile the query range) / lib/util/lifted/promql2influxql/call.go",
-    flagged("range<step|", GARBAGE, skip=("two-shard-window|", "file-memtable-seam|")))
+    flagged("range<step|", GARBAGE))
 add("C18-nan-inf-samples",
-    "current samples that are NaN or +/-Inf: a comparison keeps the NaN sample (temp_c > 0.5 returns it, Prometheus drops it); quantile() orders NaN differently (quantile(0.5, temp_c) 8.23 instead of 6.065, quantile(1, ...) NaN instead of the maximum); min()/max() over NaN or +Inf return 1.7976931348623157e+308",
+    "current samples that are NaN or +/-Inf: a comparison keeps the NaN sample (temp_c > 0.5 returns it, Prometheus drops it); (2 ^ temp_c) >= bool 5 drops it; quantile() orders NaN differently (quantile(0.5, temp_c) 8.23 instead of 6.065, quantile(1, ...) NaN instead of the maximum); min()/max() over NaN or +Inf return 1.7976931348623157e+308",
     "engine/executor/prom_binop_transform.go (comparison of NaN), engine/executor prom aggregates (min/max initial value, quantile ordering)",
-    flagged("nan-inf-in-window|", ["value:number", "value:nan-vs-number", "value:inf", "point-extra", "series-extra"],
-            skip=("two-shard-window|", "file-memtable-seam|", "range<step|")))
+    flagged("nan-inf-in-window|", ["value:number", "value:nan-vs-number", "value:inf", "point-extra", "series-extra",
+                                   "point-missing", "series-missing"]))
 
 json.dump({"findings": out}, open("/verif/known_findings.d/c18.json", "w"), indent=1)
 print(len(out), "entries")
